@@ -7,7 +7,7 @@
 use nom::{
     branch::alt,
     bytes::streaming::{tag, tag_no_case},
-    combinator::map,
+    combinator::{map, map_res},
     multi::separated_list0,
     sequence::tuple,
     IResult,
@@ -119,8 +119,8 @@ fn entry_name(i: &[u8]) -> IResult<&[u8], &[u8]> {
     Ok(astring_res)
 }
 
-fn slice_to_str(i: &[u8]) -> &str {
-    std::str::from_utf8(i).unwrap()
+fn slice_to_str(i: &[u8]) -> Result<&str, std::str::Utf8Error> {
+    std::str::from_utf8(i)
 }
 
 fn nil_value(i: &[u8]) -> IResult<&[u8], Option<String>> {
@@ -128,15 +128,15 @@ fn nil_value(i: &[u8]) -> IResult<&[u8], Option<String>> {
 }
 
 fn string_value(i: &[u8]) -> IResult<&[u8], Option<String>> {
-    map(alt((quoted, literal)), |s| {
-        Some(slice_to_str(s).to_string())
+    map_res(alt((quoted, literal)), |s| {
+        slice_to_str(s).map(|s| Some(s.to_string()))
     })(i)
 }
 
 fn keyval_list(i: &[u8]) -> IResult<&[u8], Vec<Metadata>> {
     parenthesized_nonempty_list(map(
         tuple((
-            map(entry_name, slice_to_str),
+            map_res(entry_name, slice_to_str),
             tag(" "),
             alt((nil_value, string_value)),
         )),
@@ -148,11 +148,14 @@ fn keyval_list(i: &[u8]) -> IResult<&[u8], Vec<Metadata>> {
 }
 
 fn entry_list(i: &[u8]) -> IResult<&[u8], Vec<Cow<str>>> {
-    separated_list0(tag(" "), map(map(entry_name, slice_to_str), Cow::Borrowed))(i)
+    separated_list0(
+        tag(" "),
+        map(map_res(entry_name, slice_to_str), Cow::Borrowed),
+    )(i)
 }
 
-fn metadata_common(i: &[u8]) -> IResult<&[u8], &[u8]> {
-    let (i, (_, mbox, _)) = tuple((tag_no_case("METADATA "), quoted, tag(" ")))(i)?;
+fn metadata_common(i: &[u8]) -> IResult<&[u8], &str> {
+    let (i, (_, mbox, _)) = tuple((tag_no_case("METADATA "), quoted_utf8, tag(" ")))(i)?;
     Ok((i, mbox))
 }
 
@@ -162,7 +165,7 @@ pub(crate) fn metadata_solicited(i: &[u8]) -> IResult<&[u8], Response> {
     Ok((
         i,
         Response::MailboxData(MailboxDatum::MetadataSolicited {
-            mailbox: Cow::Borrowed(slice_to_str(mailbox)),
+            mailbox: Cow::Borrowed(mailbox),
             values,
         }),
     ))
@@ -174,7 +177,7 @@ pub(crate) fn metadata_unsolicited(i: &[u8]) -> IResult<&[u8], Response> {
     Ok((
         i,
         Response::MailboxData(MailboxDatum::MetadataUnsolicited {
-            mailbox: Cow::Borrowed(slice_to_str(mailbox)),
+            mailbox: Cow::Borrowed(mailbox),
             values,
         }),
     ))
